@@ -120,6 +120,7 @@ CONSTANTS
  NShards = 16
  SubChars = {}
  NameAlphabet = %s
+ InsChars = {}
  MaxName = %d
 INVARIANTS Emit
 CHECK_DEADLOCK FALSE
@@ -134,7 +135,7 @@ CHECK_DEADLOCK FALSE
 	for c := 33; c <= 126; c++ {
 		all = append(all, c)
 	}
-	cfg1 := fmt.Sprintf("SPECIFICATION Spec\nCONSTANTS\n Mode = \"plugin\"\n Seed = %d\n NShards = 16\n SubChars = {}\n NameAlphabet = %s\n MaxName = 1\nINVARIANTS Emit\nCHECK_DEADLOCK FALSE\n", run.Seed%200, intSet(all))
+	cfg1 := fmt.Sprintf("SPECIFICATION Spec\nCONSTANTS\n Mode = \"plugin\"\n Seed = %d\n NShards = 16\n SubChars = {}\n NameAlphabet = %s\n MaxName = 1\n InsChars = {}\nINVARIANTS Emit\nCHECK_DEADLOCK FALSE\n", run.Seed%200, intSet(all))
 	res1 := run.TLC("names-every-character", vk.TLCOpts{Module: "Bech32Gen", Config: cfg1, Workers: 16})
 	if res1.Violated != "" || !res1.OK {
 		vk.Infra("Bech32Gen: %s\n%s", res1.Violated, res1.Output)
@@ -146,8 +147,8 @@ CHECK_DEADLOCK FALSE
 		if err := json.Unmarshal([]byte(l), &c); err != nil {
 			vk.Infra("bad CASE: %v", err)
 		}
-		if c.Class != "plugin_canon" || c.Payload != 5 {
-			continue // one payload length is enough here (C09 covers the payloads); rejected names must stay in
+		if c.Class != "plugin_canon" || c.Payload == 1 {
+			continue // an empty and a non-empty payload (C09 covers the payload lengths); rejected names must stay in
 		}
 		cases = append(cases, c)
 	}
